@@ -75,6 +75,14 @@ def pyIterO (O : Oracle) (v : V) : R (List V) :=
       | _ => raisePy .typeError
   | _ => pyIter v
 
+/-- `v[a:b]` then iteration: a bytes / bytearray object is sliced like a sequence of its items -/
+def pySliceO (O : Oracle) (v : V) (a : Int) (b : Option Int) : R (List V) :=
+  match v with
+  | .leaf .bytes _ | .leaf .bytearray _ => do
+      let xs ← pyIterO O v
+      pySlice (.coll .list xs) a b
+  | _ => pySlice v a b
+
 /-- `v[i]` where a mapping is searched with Python `==` (so `Decimal('0')`, `0.0` or `False`
     keys answer to the literal index 0) -/
 def pyIndexO (O : Oracle) (v : V) (i : Int) : R V :=
